@@ -28,6 +28,7 @@ N_sd   == RH \o <<115,100>>                                     \* refs/heads/sd
 N_ss   == RH \o <<115,115>>                                     \* refs/heads/ss
 N_oh   == <<114,101,102,115,47,114,101,109,111,116,101,115,47,111,47,72,69,65,68>>   \* refs/remotes/o/HEAD
 N_eq   == RH \o <<101,61,49>>                                  \* refs/heads/e=1 ('=' also separates a capability from its value)
+N_nbsp == RH \o <<117,194,160>>                               \* refs/heads/u<U+00A0>: ends with a non-ASCII blank (lines end with LF only)
 N_none == RH \o <<110,111,110,101>>                             \* refs/heads/none (never exists)
 
 Oid(n, v) == [name |-> n, k |-> "oid", v |-> v]
@@ -44,7 +45,8 @@ Alphabet == <<
   Sym(N_sd, N_none),   \* dangling symbolic ref
   Sym(N_ss, N_s),      \* chain of symbolic refs
   Sym(N_oh, N_a),      \* the usual refs/remotes/<r>/HEAD
-  Oid(N_eq, C2)        \* a branch whose name contains '='
+  Oid(N_eq, C2),       \* a branch whose name contains '='
+  Oid(N_nbsp, C1)      \* a branch whose name ends with U+00A0
 >>
 
 Heads == { [k |-> "sym", v |-> N_a], [k |-> "sym", v |-> N_t], [k |-> "sym", v |-> N_s], [k |-> "sym", v |-> N_sd],
